@@ -143,6 +143,12 @@ def classify(world, sc, pre):
     op = sc["op"]
     new = [i for i in ids if i not in pre["ids"]]
     rows = current_rows(v)
+    # a table with a snapshot retention count trims its oldest snapshots in the commit that adds one: then the post-state keeps a
+    # suffix of the earlier snapshots (how many is C15's subject), not all of them
+    if len(new) == 1 and ids and ids[-1] == new[0] and str((v.get("properties") or {}).get("datashard.snapshot.retention-count", "")).strip().isdigit():
+        kept = ids[:-1]
+        if kept == pre["ids"][len(pre["ids"]) - len(kept):]:
+            pre = dict(pre, ids=kept)
     if op in ("append", "multi"):
         add = [{"k": 100, "s": "x"}] + ([{"k": 101, "s": "y"}, {"k": 102, "s": "z"}] if op == "multi" else [])
         if len(new) == 1 and ids[:-1] == pre["ids"] and rows == pre["rows"] + rows_multiset(add) and v["current_id"] == new[0]:
